@@ -26,6 +26,7 @@ type PropConfig struct {
 	SweepSkip   []string `json:"sweep_skip"`   // display names excluded from the reachability sweep (with reason in Notes)
 	Lemmas      []string `json:"lemmas"`       // lemma names
 	Required    []string `json:"required"`     // obligation name prefixes that must be generated
+	Locks       bool     `json:"locks"`        // include the lock-discipline obligations (guard, lockorder, lockbalance)
 	Kinds       []string `json:"kinds"`        // restrict to obligation kinds (empty = all)
 	Clauses     []string `json:"clauses"`      // for functions shared between properties: only these post clause ids (empty = all)
 	Structural  []string `json:"structural"`   // names of structural checks
@@ -222,6 +223,9 @@ func cmdCheck(args []string) int {
 			if !kindOK(o.Kind) {
 				continue
 			}
+			if (o.Kind == "guard" || o.Kind == "lockorder" || o.Kind == "lockbalance") && !pc.Locks {
+				continue // lock discipline is property C16's
+			}
 			if o.Kind == "panic" && r.HasContract && !pc.Panics && !contains(pc.Sweep, r.Fn) {
 				continue // panic freedom of functions under contract is property C15's
 			}
@@ -263,7 +267,22 @@ func cmdCheck(args []string) int {
 	var retry []*Obligation
 	for _, o := range obls {
 		if !o.Cover && (o.Result == "timeout" || o.Result == "unknown") {
-			retry = append(retry, o)
+			// an obligation listed by an open known finding is expected to fail: no second chance needed
+			listed := false
+			for k := range known.Findings {
+				kf := &known.Findings[k]
+				if kf.Status != "open" || kf.Property != id {
+					continue
+				}
+				for _, pat := range kf.Obligations {
+					if matchPattern(pat, stripOrdinal(o.Name)) {
+						listed = true
+					}
+				}
+			}
+			if !listed {
+				retry = append(retry, o)
+			}
 		}
 	}
 	if len(retry) > 0 && len(retry) <= 8 {
